@@ -191,3 +191,35 @@ fn get_guard_operator_is_the_continue_condition() {
     }
   }
 }
+
+// ---- contracts of std functions that Verus units take as `assume_specification` (vstd has none): each is a
+// ---- loop-free harness over the full domain, so the assumed text is a discharged obligation, not documentation.
+
+/// unit tripcount: `i32::checked_neg(x)` is None exactly for i32::MIN and Some(-x) otherwise
+#[kani::proof]
+fn std_i32_checked_neg_contract() {
+  let x: i32 = kani::any();
+  let r = x.checked_neg();
+  if x == i32::MIN {
+    assert!(r.is_none());
+  } else {
+    assert!(r == Some(0i32.wrapping_sub(x)));
+    assert!((r.unwrap() as i64) == -(x as i64));
+  }
+}
+
+/// unit lexer: `u8::is_ascii_whitespace` is the set {space, \t, \n, form feed, \r}
+#[kani::proof]
+fn std_u8_is_ascii_whitespace_contract() {
+  let c: u8 = kani::any();
+  let is_ws = c == 0x20 || c == 0x09 || c == 0x0A || c == 0x0C || c == 0x0D;
+  assert!(c.is_ascii_whitespace() == is_ws);
+}
+
+/// unit strconst: `u8::is_ascii_alphanumeric` is 0-9, A-Z, a-z
+#[kani::proof]
+fn std_u8_is_ascii_alphanumeric_contract() {
+  let b: u8 = kani::any();
+  let is_alnum = (0x30 <= b && b <= 0x39) || (0x41 <= b && b <= 0x5A) || (0x61 <= b && b <= 0x7A);
+  assert!(b.is_ascii_alphanumeric() == is_alnum);
+}
